@@ -476,7 +476,12 @@ def write_evidence(prop, mod, tier, seed, *, evaluations, distinct_nontrivial, s
         "wall_s": round(wall, 2),
         "violations": int(violations),
     }
-    d = os.path.join(VERIF_ROOT, "evidence")
+    # evidence/ describes runs against /repo itself; runs against another tree (VERIF_REPO, used by the
+    # developer tools that apply seeded changes to a scratch copy) write elsewhere
+    if repo_root() == os.path.realpath("/repo"):
+        d = os.path.join(VERIF_ROOT, "evidence")
+    else:
+        d = os.path.join(VERIF_ROOT, ".scratch", "evidence-other-tree")
     os.makedirs(d, exist_ok=True)
     tmp = os.path.join(d, f".{prop}.json.tmp")
     with open(tmp, "w") as fh:
